@@ -30,6 +30,21 @@
  *                                      the record has an un-memoised triple or no triple at all (otherwise the code reads through NULL: `ub`)
  *   H <tid> <nthreads> <rounds> <cls>… threads doing first lookups on cold caches, repeatedly
  *   D <tid>                            dump
+ *   N <tid> heap <name> <size> row…    new_raw_with(Type, …) while the harness serves Type_Alloc's calloc from a LIFO pool of blocks (link-time
+ *                                      --wrap=calloc/free; a freed block is poisoned for ASan until it is handed out again): after `X` of a
+ *                                      heap type the next `N … heap` gets the SAME ADDRESS, as with glibc's malloc outside ASan's quarantine.
+ *                                      `I heap=… after-free=… recycled=… just-freed=…` at the end counts the heap constructions, those made while a
+ *                                      released block existed, those that really landed on the address of a deleted type object, and those on
+ *                                      the address released last.
+ *   c <tid> <fn>                       call the LIBRARY function <fn> (a function of src/*.c written with `method(self, C, M, …)`, or one that
+ *                                      starts `struct C* c = instance(self, C); if (c and c->M) …`) on an object of the run-time type tid
+ *   d <tid> <fn>                       the same dispatch through a `method(x, C, M, …)` call site of THIS file (compiled with the Cello.h under test)
+ *   g <tid> <fn>                       `type_method(T, C, M, x, …)` at a call site of this file
+ *   f <tid> <fn>                       `implements_method(x, C, M)` at a call site of this file
+ *                                      Every non-NULL member of every instance of a run-time type is one of 256 distinct probe functions, handed
+ *                                      out round-robin, so the oracle knows WHICH declaration's member ran: the member the declaration in force
+ *                                      puts at (first triple of class C, member M) exactly once, or ClassError and nothing invoked; a soft
+ *                                      function is called only where the declaration has the member (its default code is not exercised).
  *   Z <b> <text>                       the CALLER writes <text> into its own character buffer b (strcpy; 64 buffers of 64 bytes, harness-owned,
  *                                      never freed).  A name token `@<b>` in C/T/N/W passes `$S(buffer b)` as the name of the type: Type_New keeps
  *                                      that POINTER as `__Name`, and every triple built from an instance of that class copies it.  Observation:
@@ -69,6 +84,89 @@ static var probe_member(var a, var b) { invoked++; return a; }
 /* lookups that cannot raise with a well-formed self run without a try block: the oracle then speaks before anything that needs
    the exception machinery (itself a client of the dispatch) */
 #define V_PLAIN(exc, stmt) do { (exc) = NULL; stmt; } while (0)
+
+/* ---- 256 distinct probe functions: the members of the instances of run-time types ---- */
+static volatile long pf_calls = 0; static volatile int pf_last = -1;
+static var pf_hit(int n) { invoked++; pf_calls++; pf_last = n; return (var)(uintptr_t)(0x5000 + 16 * n); }
+#define PF1(n) static var pfn_##n(void) { return pf_hit(0x##n); }
+#define PF16(H) PF1(H##0) PF1(H##1) PF1(H##2) PF1(H##3) PF1(H##4) PF1(H##5) PF1(H##6) PF1(H##7) PF1(H##8) PF1(H##9) PF1(H##a) PF1(H##b) PF1(H##c) PF1(H##d) PF1(H##e) PF1(H##f)
+PF16(0) PF16(1) PF16(2) PF16(3) PF16(4) PF16(5) PF16(6) PF16(7) PF16(8) PF16(9) PF16(a) PF16(b) PF16(c) PF16(d) PF16(e) PF16(f)
+#define PT1(n) pfn_##n,
+#define PT16(H) PT1(H##0) PT1(H##1) PT1(H##2) PT1(H##3) PT1(H##4) PT1(H##5) PT1(H##6) PT1(H##7) PT1(H##8) PT1(H##9) PT1(H##a) PT1(H##b) PT1(H##c) PT1(H##d) PT1(H##e) PT1(H##f)
+enum { NPF = 256 };
+static var (*pf_tab[NPF])(void) = { PT16(0) PT16(1) PT16(2) PT16(3) PT16(4) PT16(5) PT16(6) PT16(7) PT16(8) PT16(9) PT16(a) PT16(b) PT16(c) PT16(d) PT16(e) PT16(f) };
+static unsigned pf_next = 0;
+static var next_probe(void) { return (var)pf_tab[pf_next++ % NPF]; }
+
+/* ---- dispatching functions: the library's own (wl_), and call sites of the method / implements_method / type_method macros in
+        this file (ws_, wi_, wt_).  W(function, Class, member, soft, extra arguments…): the library function is `function(self, extra…)`
+        and is written `method(self, Class, member, extra…)` (soft = 0) or `instance(self, Class)` + member test + default code (soft = 1);
+        the (class, member index) of every function is ALSO read from the source text by the translator (CelloGen.Disp.methodSites /
+        instanceSites, used by the Lean driver): a disagreement shows as a divergence ---- */
+#define WLIST(W) \
+  W(call_with, Call, call_with, 0, x) \
+  W(iter_init, Iter, iter_init, 0) W(iter_next, Iter, iter_next, 0, x) W(iter_last, Iter, iter_last, 0) W(iter_prev, Iter, iter_prev, 0, x) W(iter_type, Iter, iter_type, 0) \
+  W(push, Push, push, 0, x) W(pop, Push, pop, 0) W(push_at, Push, push_at, 0, x, x) W(pop_at, Push, pop_at, 0, x) \
+  W(get, Get, get, 0, x) W(set, Get, set, 0, x, x) W(mem, Get, mem, 0, x) W(rem, Get, rem, 0, x) W(key_type, Get, key_type, 0) W(val_type, Get, val_type, 0) \
+  W(len, Len, len, 0) W(c_int, C_Int, c_int, 0) W(c_str, C_Str, c_str, 0) W(c_float, C_Float, c_float, 0) \
+  W(ref, Pointer, ref, 0, x) W(deref, Pointer, deref, 0) \
+  W(resize, Resize, resize, 0, 3) W(append, Concat, append, 0, x) W(concat, Concat, concat, 0, x) \
+  W(sort_by, Sort, sort_by, 0, (bool(*)(var,var))NULL) \
+  W(sopen, Stream, sopen, 0, x, x) W(sclose, Stream, sclose, 0) W(sseek, Stream, sseek, 0, 0, 0) W(stell, Stream, stell, 0) W(sflush, Stream, sflush, 0) \
+  W(seof, Stream, seof, 0) W(sread, Stream, sread, 0, NULL, 0) W(swrite, Stream, swrite, 0, NULL, 0) \
+  W(look_from, Show, look, 0, x, 0) \
+  W(start, Start, start, 0) W(stop, Start, stop, 0) W(join, Start, join, 0) W(running, Start, running, 0) \
+  W(lock, Lock, lock, 0) W(unlock, Lock, unlock, 0) W(trylock, Lock, trylock, 0) \
+  W(hash, Hash, hash, 1) W(cmp, Cmp, cmp, 1, x) W(copy, Copy, copy, 1) W(show_to, Show, show, 1, x, 0) W(swap, Swap, swap, 1, x) W(assign, Assign, assign, 1, x)
+#define W_DEF(fn, C, M, soft, ...) \
+  static void wl_##fn(var x) { (void)fn(x, ##__VA_ARGS__); } \
+  static void ws_##fn(var x) { (void)method(x, C, M, ##__VA_ARGS__); } \
+  static int wi_##fn(var x) { return implements_method(x, C, M) ? 1 : 0; } \
+  static void wt_##fn(var T, var x) { (void)type_method(T, C, M, x, ##__VA_ARGS__); }
+WLIST(W_DEF)
+typedef struct { const char* name; var* cls; int k; int soft; void (*lib)(var); void (*site)(var); int (*impl)(var); void (*tsite)(var, var); } Wrap;
+#define W_ROW(fn, C, M, soft, ...) { #fn, &C, (int)(offsetof(struct C, M) / sizeof(var)), soft, wl_##fn, ws_##fn, wi_##fn, wt_##fn },
+static Wrap wraps[] = { WLIST(W_ROW) { NULL, NULL, 0, 0, NULL, NULL, NULL, NULL } };
+static Wrap* find_wrap(const char* nm) { for (Wrap* w = wraps; w->name; w++) if (strcmp(w->name, nm) == 0) return w; return NULL; }
+
+/* ---- Type_Alloc's blocks from a LIFO pool (mode heap): what malloc does with a just-freed block, made visible under ASan ---- */
+#if defined(__has_feature)
+#if __has_feature(address_sanitizer)
+#include <sanitizer/asan_interface.h>
+#define POOL_POISON(p, n) ASAN_POISON_MEMORY_REGION(p, n)
+#define POOL_UNPOISON(p, n) ASAN_UNPOISON_MEMORY_REGION(p, n)
+#endif
+#endif
+#ifndef POOL_POISON
+#define POOL_POISON(p, n) ((void)0)
+#define POOL_UNPOISON(p, n) ((void)0)
+#endif
+enum { NPOOL = 64, POOL_BLOCK = 16384 };
+static char pool_mem[NPOOL][POOL_BLOCK] __attribute__((aligned(64)));
+static int pool_stack[NPOOL], pool_nfree = 0, pool_fresh = 0, pool_on = 0;
+static void* pool_last_freed = NULL; static int pool_last_from_stack = 0; static long n_heap = 0, n_heap_after_free = 0, n_recycled = 0, n_just_freed = 0;
+static int in_pool(const void* p) { return (uintptr_t)p >= (uintptr_t)pool_mem && (uintptr_t)p < (uintptr_t)pool_mem + sizeof pool_mem; }
+static int pool_available(void) { return pool_nfree > 0 || pool_fresh < NPOOL; }
+void* __real_calloc(size_t n, size_t sz); void __real_free(void* p);
+void* __wrap_calloc(size_t n, size_t sz) {
+  if (pool_on && n * sz >= 2048 && n * sz <= POOL_BLOCK && pool_available()) {
+    pool_last_from_stack = pool_nfree > 0;
+    int slot = pool_nfree > 0 ? pool_stack[--pool_nfree] : pool_fresh++;
+    POOL_UNPOISON(pool_mem[slot], POOL_BLOCK); memset(pool_mem[slot], 0, n * sz);
+    pool_on = 0;                                            /* one block per construction */
+    return pool_mem[slot];
+  }
+  return __real_calloc(n, sz);
+}
+void __wrap_free(void* p) {
+  if (in_pool(p)) {
+    int slot = (int)(((uintptr_t)p - (uintptr_t)pool_mem) / POOL_BLOCK);
+    pool_last_freed = pool_mem[slot]; POOL_POISON(pool_mem[slot], POOL_BLOCK);
+    if (pool_nfree < NPOOL) pool_stack[pool_nfree++] = slot;
+    return;
+  }
+  __real_free(p);
+}
 
 /* ---- statically declared probe types (file scope; rows are repeated in vlib/props/c08.py and checked on `S`) ---- */
 struct ProbeS2 { int x; };
@@ -383,7 +481,7 @@ static var construct_type(int how, var T, TH* h, Cell* cells, const char* name, 
   for (int i = 0; i < h->n; i++) {
     h->rcname[i] = strdup(raw_name(resolve_cls(h->rname[i])));        /* the name Type_New stores: c_str(type_of(ins)) now */
     var ins = header_init(&cells[i].h, resolve_cls(h->rname[i]), AllocStatic);
-    for (size_t k = 0; k < strlen(h->rflags[i]); k++) cells[i].m[k] = h->rflags[i][k] == '1' ? (var)probe_member : NULL;
+    for (size_t k = 0; k < strlen(h->rflags[i]); k++) cells[i].m[k] = h->rflags[i][k] == '1' ? next_probe() : NULL;
     items[2 + i] = ins;
   }
   items[2 + h->n] = Terminal;
@@ -395,6 +493,7 @@ static var construct_type(int how, var T, TH* h, Cell* cells, const char* name, 
   case 3: R = alloc_raw(Type); V_TRY(exc, construct_with(R, args)); if (exc) { dealloc_raw(R); R = NULL; } break;
   case 4: R = junk_storage(); V_TRY(exc, construct_with(R, args)); if (exc) { free((char*)R - sizeof(struct Header)); R = NULL; } break;
   case 6: R = arena_storage(h->aslot); V_TRY(exc, construct_with(R, args)); if (exc) R = NULL; break;
+  case 7: pool_on = 1; V_TRY(exc, R = new_raw_with(Type, args)); pool_on = 0; break;
   default: V_TRY(exc, { destruct(R); construct_with(R, args); }); break;
   }
   free(items);
@@ -511,7 +610,7 @@ int main(int argc, char** argv) {
       for (int i = 0; i < h->n; i++) {
         h->rcname[i] = strdup(raw_name(resolve_cls(h->rname[i])));
         var ins = header_init(&h->cells[i].h, resolve_cls(h->rname[i]), AllocStatic);
-        for (size_t k = 0; k < strlen(h->rflags[i]); k++) h->cells[i].m[k] = h->rflags[i][k] == '1' ? (var)probe_member : NULL;
+        for (size_t k = 0; k < strlen(h->rflags[i]); k++) h->cells[i].m[k] = h->rflags[i][k] == '1' ? next_probe() : NULL;
         items[2 + i] = ins;
       }
       items[2 + h->n] = Terminal;
@@ -538,7 +637,7 @@ int main(int argc, char** argv) {
       int how = 5;
       if (isN) {
         const char* m = tok[2];
-        how = !strcmp(m, "raw") ? 0 : !strcmp(m, "root") ? 1 : !strcmp(m, "gc") ? 2 : !strcmp(m, "alloc") ? 3 : !strcmp(m, "junk") ? 4 : !strcmp(m, "arena") ? 6 : -1;
+        how = !strcmp(m, "raw") ? 0 : !strcmp(m, "root") ? 1 : !strcmp(m, "gc") ? 2 : !strcmp(m, "alloc") ? 3 : !strcmp(m, "junk") ? 4 : !strcmp(m, "arena") ? 6 : !strcmp(m, "heap") ? 7 : -1;
         if (how < 0) { O("bad-op"); break; }
       } else if (th[tid].kind != 3) { O("bad-op"); break; }
       char* np; if (!name_tok(tok[first - 2], &np)) { O("bad-op"); break; }
@@ -549,6 +648,7 @@ int main(int argc, char** argv) {
       int bad = 0; for (int i = 0; i < nh.n; i++) if (!resolve_cls(nh.rname[i]) || (th[tid].kind == 3 && resolve_cls(nh.rname[i]) == th[tid].type)) bad = 1;
       int gcslot = -1, aslot = -1;
       if (how == 6) { aslot = arena_free_slot(); if (aslot < 0) bad = 1; }
+      if (how == 7 && !pool_available()) bad = 1;
       if (how == 2) { for (int g = 0; g < MAXGC; g++) if (!gckeep[g]) { gcslot = g; break; } if (gcslot < 0) bad = 1; }
       if (bad) { free_type(&nh); O("bad-op"); break; }
       TH* h = &th[tid];
@@ -558,7 +658,14 @@ int main(int argc, char** argv) {
         if (h->kind == 3) { var old = h->type; h->kind = 0; mark_dead(old); }          /* abandoned: as good as deleted */
         free_type(h);
         nh.aslot = aslot;
+        void* lastfree = pool_last_freed; int hadfree = pool_nfree > 0;
         var T = construct_type(how, NULL, &nh, cells, np ? np : tname, size, &exc);
+        if (how == 7) {
+          n_heap++;
+          /* verified on the addresses themselves: the new type object lies on a block that held a deleted type object before */
+          if (hadfree) { n_heap_after_free++; if (T && in_pool(T) && pool_last_from_stack) n_recycled++; if (T && (char*)T - sizeof(struct Header) == (char*)lastfree) n_just_freed++; }
+          if (T && !in_pool(T)) X("sig=disp-harness line=%zu what=Type_Alloc did not take its block from calloc in the expected size: mode heap cannot steer the address", line);
+        }
         if (exc) {
           if (exc != OutOfMemoryError || nh.n <= 256) X("sig=disp-typenew line=%zu what=creating a type with %d instances raised %s", line, nh.n, v_exc_name(exc));
           O("N %d n=%d %s", tid, nh.n, v_exc_name(exc)); free_type(&nh); free(cells); free(tname); break;
@@ -700,6 +807,52 @@ int main(int argc, char** argv) {
       check_inv(h, line); nlook++;
 #undef SIG
     } break;
+    case 'c': case 'd': case 'f': case 'g': {
+      if (nt != 3) { O("bad-op"); break; }
+      int tid = atoi(tok[1]); if (tid < 0 || tid >= MAXT || th[tid].kind != 3) { O("bad-op"); break; }
+      Wrap* w = find_wrap(tok[2]); if (!w || !*w->cls) { O("bad-op"); break; }
+      TH* h = &th[tid]; var T = h->type; var self = h->obj->body; var cls = *w->cls; int k = w->k;
+      int er = row_first_for(h, cls), rr = raw_index(T, raw_scan_name(T, raw_name(cls)));
+      if (er >= 0 && (size_t)k >= strlen(h->rflags[er])) { O("bad-op"); break; }             /* a read outside the instance struct: never executed */
+      int want_ok = er >= 0 && row_member(h, er, k);
+      int raw_ok = rr >= 0 && ((var*)raw_first(T)[rr].inst)[k] != NULL;
+      if (op[0] == 'c' && w->soft && !want_ok) { O("bad-op"); break; }                         /* the default code of a soft function is not exercised */
+      int borrowed = borrowed_territory(h, cls);
+#define SIG2(s) (borrowed ? "KF-C08-borrowed-name" : (s))
+      if (want_ok != raw_ok) X("sig=%s line=%zu what=member %d of %s.%s: declaration and record disagree", SIG2("disp-record"), line, k, raw_name(T), raw_name(cls));
+      const char* how = op[0] == 'c' ? "the library function" : op[0] == 'd' ? "a method(...) call site" : op[0] == 'g' ? "a type_method(...) call site" : "an implements_method(...) call site";
+      pf_calls = 0; pf_last = -1;
+      if (op[0] == 'f') {
+        int b = 0; V_PLAIN(exc, b = w->impl(self));
+        snprintf(rb, sizeof rb, "%d", b);
+        if (b != want_ok || b != raw_ok) X("sig=%s line=%zu what=implements_method(x, %s, %s) on a %s object gave %d, its type declares %d (raw record %d)", SIG2("disp-implements-method"), line, raw_name(cls), w->name, raw_name(T), b, want_ok, raw_ok);
+        if (pf_calls) X("sig=disp-invoked line=%zu what=a member function was called by implements_method", line);
+      } else {
+        if (op[0] == 'c') V_TRY(exc, w->lib(self)); else if (op[0] == 'd') V_TRY(exc, w->site(self)); else V_TRY(exc, w->tsite(T, self));
+        var fn = (pf_calls >= 1 && pf_last >= 0) ? (var)pf_tab[pf_last] : NULL;
+        var wantfn = want_ok ? h->cells[er].m[k] : NULL;
+        if (exc) snprintf(rb, sizeof rb, "%s", v_exc_name(exc));
+        else if (pf_calls == 0) snprintf(rb, sizeof rb, "default");
+        else if (pf_calls > 1) snprintf(rb, sizeof rb, "#multi");
+        else if (want_ok && fn == wantfn) snprintf(rb, sizeof rb, "#%d", er);
+        else {
+          int ix = -1, i = 0; for (struct Type* t = raw_first(T); t->name; t++, i++) if (t->inst && ((var*)t->inst)[k] == fn) { ix = i; break; }
+          if (ix >= 0) snprintf(rb, sizeof rb, "#%d", ix); else snprintf(rb, sizeof rb, "#?");
+        }
+        if (want_ok) {
+          if (exc || pf_calls != 1 || fn != wantfn)
+            X("sig=%s line=%zu what=%s %s (%s.%s) on an object of type %s: its type declares member %d of its first %s instance (triple %d), but %s%s", SIG2("disp-call"), line, how, w->name, raw_name(cls), w->name, raw_name(T), k, raw_name(cls), er,
+              exc ? "it raised " : pf_calls == 0 ? "nothing was invoked" : pf_calls > 1 ? "several members were invoked" : "ANOTHER function was invoked: a member this type does not declare there (a deleted type's, or another triple's)", exc ? v_exc_name(exc) : "");
+        } else {
+          if (exc != ClassError || pf_calls != 0)
+            X("sig=%s line=%zu what=%s %s (%s.%s) on an object of type %s, which %s: expected ClassError and nothing invoked, got %s with %ld member call(s)", SIG2("disp-call-classerror"), line, how, w->name, raw_name(cls), w->name, raw_name(T),
+              er < 0 ? "declares no instance of the class" : "leaves the member NULL", exc ? v_exc_name(exc) : "no exception", (long)pf_calls);
+        }
+      }
+      O("%s %s%s", op, rb, dump(h, 1));
+      check_inv(h, line); nlook++;
+#undef SIG2
+    } break;
     case 'K': {
       if (nt != 3) { O("bad-op"); break; }
       int tid = atoi(tok[1]), tid2 = atoi(tok[2]);
@@ -827,5 +980,6 @@ int main(int argc, char** argv) {
     }
   }
   I("ops=%zu lookups=%zu", nops, nlook);
+  I("heap=%ld after-free=%ld recycled=%ld just-freed=%ld", n_heap, n_heap_after_free, n_recycled, n_just_freed);
   return 0;
 }
